@@ -49,7 +49,7 @@ Print Assumptions sparse_epoch_treats_null_columns_like_dense.
 
 (* GroupBCD: an all-zero group (zero Lipschitz constant) is skipped by the regenerated block epoch -- the gradient accessor and
    the prox are not even called, so nothing is divided by zero and (w, Xw) come back unchanged *)
-Require Import SK.Gen.KernBCD SK.Lemmas.BcdEpoch.
+Require Import SK.Gen.KernBCD SK.Lemmas.BcdNull.
 Theorem bcd_epoch_skips_null_groups : forall (prox_1group : list R -> R -> Z -> res (list R))
     (gg_dense : list (list R) -> list R -> list R -> list R -> Z -> res (list R))
     (X : list (list R)) (y lip : list R) (grp_ptr grp_indices : list Z) ws w Xw,
